@@ -770,6 +770,64 @@ func runC16(r *Run) {
 	}
 	r.Extra["fault_runs"] = totalK
 	c16Probe(r)
+	c16Constructor(r)
+}
+
+// c16Constructor: NewEncoderFor refuses what it cannot encode with an error, before
+// anything reaches the writer, and never panics: a non-struct record type, a struct the
+// schema generator refuses, a struct the codec builder refuses, an unknown compression.
+type c16Chan struct {
+	A int64    `json:"a"`
+	C chan int `json:"c"`
+}
+type c16Narrow struct {
+	A int64 `json:"a"`
+	B int8  `json:"b"`
+}
+type c16Fine struct {
+	A int64  `json:"a"`
+	S string `json:"s"`
+}
+
+func c16Constructor(r *Run) {
+	try := func(name string, f func(w io.Writer) error, wantErr bool) {
+		w := &w9RecWriter{failAt: -1}
+		var err error
+		var pn any
+		func() {
+			defer func() { pn = recover() }()
+			err = f(w)
+		}()
+		desc := map[string]any{"constructor": name}
+		r.Count("constructor/" + name)
+		switch {
+		case pn != nil:
+			r.Fail(-1, "constructor-panic", fmt.Sprintf("NewEncoderFor (%s) panics: %v", name, pn), desc)
+		case wantErr && err == nil:
+			r.Fail(-1, "constructor", "NewEncoderFor ("+name+") returns no error", desc)
+		case wantErr && len(w.acc) > 0:
+			r.Fail(-1, "constructor", fmt.Sprintf("NewEncoderFor (%s) fails after writing %d bytes", name, len(w.acc)), desc)
+		case !wantErr && err != nil:
+			r.Fail(-1, "constructor", "NewEncoderFor ("+name+") fails: "+err.Error(), desc)
+		}
+	}
+	try("non-struct", func(w io.Writer) error { _, err := avro.NewEncoderFor[int64](w, avro.CompressionNull, 100); return err }, true)
+	try("chan-field", func(w io.Writer) error {
+		_, err := avro.NewEncoderFor[c16Chan](w, avro.CompressionNull, 100)
+		return err
+	}, true)
+	try("int8-field", func(w io.Writer) error {
+		_, err := avro.NewEncoderFor[c16Narrow](w, avro.CompressionNull, 100)
+		return err
+	}, true)
+	try("unknown-compression", func(w io.Writer) error {
+		_, err := avro.NewEncoderFor[c16Fine](w, avro.Compression("zstd"), 100)
+		return err
+	}, true)
+	try("fine", func(w io.Writer) error {
+		_, err := avro.NewEncoderFor[c16Fine](w, avro.CompressionDeflate, 100)
+		return err
+	}, false)
 }
 
 // c16One enumerates every Write index of the history (and one index beyond the
